@@ -3,10 +3,13 @@
 set -u
 P=$1; shift
 git -C /repo apply "$P" || { echo "PATCH DOES NOT APPLY"; exit 2; }
+# evidence files are rewritten by every run: keep the ones of the unchanged tree
+EVSAVE=$(mktemp -d /tmp/seedtest-ev.XXXXXX); cp /verif/evidence/*.json "$EVSAVE"/
 for c in "$@"; do
   out=$(cd /verif && ./check $c 2>&1 | grep -E "^(OK|VIOLATION|KNOWN)" | head -4 | cut -c1-220)
   echo "[$c] $out"
 done
 git -C /repo checkout -- . 
+cp "$EVSAVE"/*.json /verif/evidence/; rm -rf "$EVSAVE"
 git -C /repo status --short | grep -v _build
 python3 -c "import sys; sys.path.insert(0,\"/verif/harness\"); import srctables; srctables.regenerate(\"/repo\",\"/verif/coq\"); import srcexprs; srcexprs.regenerate(\"/repo\",\"/verif/coq\")"
